@@ -2,11 +2,19 @@
 //! the header, for `p2panda::operation::Extensions` in both variants: Basic (log id, timestamp,
 //! prune flag) and Causal (log id, timestamp, set of previous hashes with |previous| in 0..8).
 //!
-//! `Extensions` has private fields; values are obtained the way a remote peer's are: by decoding a
-//! harness-encoded CBOR tuple through the public `Deserialize` impl. Decoding the same tuple twice
-//! gives two *equal* extension values built independently (for Causal: two `HashSet` instances).
+//! `Extensions` has private fields. Causal values are obtained the way a remote peer's are: by
+//! decoding a harness-encoded CBOR tuple through the public `Deserialize` impl; decoding the same
+//! tuple twice gives two *equal* values built independently (two `HashSet` instances). Basic values
+//! are built once through the public constructor (`Extensions::from_topic(..).set_prune_flag(..)`,
+//! timestamp taken from the mock wall clock) and once from the wire tuple. The content of every
+//! value (log id, timestamp, prune flag, set of previous hashes) is read back through accessors and
+//! through its own encoding and compared with what the harness put in.
 //! The generic extension types are covered by `vh-core C02`.
 
+use std::collections::BTreeSet;
+use std::time::Duration;
+
+use mock_instant::thread_local::MockClock;
 use p2panda::operation::Extensions;
 use p2panda_core::cbor::{decode_cbor, encode_cbor};
 use p2panda_core::{Body, Hash, Header, SigningKey, validate_header};
@@ -52,27 +60,60 @@ fn unsigned(f: &Fields, ext: Extensions) -> Header<Extensions> {
     }
 }
 
-/// Harness-side encoding of the extensions tuple (see the format comment in
-/// `p2panda/src/operation.rs`): `(version, variant_code, log_id, timestamp, prune_flag | [prev..])`.
-fn ext_tuple_bytes(rng: &mut Rng, causal: bool, n_prev: usize) -> (Vec<u8>, Vec<Hash>) {
-    let log_id = Hash::digest(rng.bytes(8));
+/// What the harness intends the extensions to say.
+#[derive(Clone, Debug, PartialEq, Eq)]
+struct Intended {
+    causal: bool,
+    topic: [u8; 32],
+    log_id: Hash,
+    timestamp: u64,
+    prune: bool,
+    previous: BTreeSet<Hash>,
+}
+
+fn gen_intended(rng: &mut Rng, causal: bool, n_prev: usize) -> (Intended, Vec<Hash>) {
+    let topic = rng.array32();
+    // "To keep topic itself private we derive it with a BLAKE3 digest" (LogId::from_topic).
+    let log_id = if causal { Hash::digest(rng.bytes(8)) } else { Hash::digest(topic) };
     let timestamp: u64 = match rng.below(4) {
         0 => 0,
         1 => u64::MAX,
         _ => rng.next_u64() >> rng.below(64),
     };
-    if causal {
-        let mut prev: Vec<Hash> = (0..n_prev).map(|_| Hash::digest(rng.bytes(12))).collect();
-        rng.shuffle(&mut prev);
-        (encode_cbor(&(1u16, 1u16, log_id, timestamp, prev.clone())).expect("encode causal tuple"), prev)
+    let mut prev: Vec<Hash> = (0..if causal { n_prev } else { 0 }).map(|_| Hash::digest(rng.bytes(12))).collect();
+    rng.shuffle(&mut prev);
+    let prune = !causal && rng.bool();
+    (Intended { causal, topic, log_id, timestamp, prune, previous: prev.iter().copied().collect() }, prev)
+}
+
+/// Harness-side encoding of the extensions tuple (see the format comment in
+/// `p2panda/src/operation.rs`): `(version, variant_code, log_id, timestamp, prune_flag | [prev..])`.
+fn ext_tuple_bytes(i: &Intended, prev_order: &[Hash]) -> Vec<u8> {
+    if i.causal {
+        encode_cbor(&(1u16, 1u16, i.log_id, i.timestamp, prev_order.to_vec())).expect("encode causal tuple")
     } else {
-        (encode_cbor(&(1u16, 0u16, log_id, timestamp, rng.bool())).expect("encode basic tuple"), Vec::new())
+        encode_cbor(&(1u16, 0u16, i.log_id, i.timestamp, i.prune)).expect("encode basic tuple")
+    }
+}
+
+/// Read the content of an extensions value back through its own encoding and its accessors.
+fn content_matches(ext: &Extensions, i: &Intended) -> bool {
+    if *ext.log_id().as_bytes() != *i.log_id.as_bytes() || u64::from(ext.timestamp()) != i.timestamp || ext.prune_flag().is_set() != i.prune {
+        return false;
+    }
+    let Ok(bytes) = encode_cbor(ext) else { return false };
+    if i.causal {
+        let Ok((v, code, log, ts, prev)) = decode_cbor::<(u16, u16, Hash, u64, Vec<Hash>), _>(&bytes[..]) else { return false };
+        v == 1 && code == 1 && log == i.log_id && ts == i.timestamp && prev.len() == i.previous.len() && prev.iter().copied().collect::<BTreeSet<Hash>>() == i.previous
+    } else {
+        let Ok((v, code, log, ts, prune)) = decode_cbor::<(u16, u16, Hash, u64, bool), _>(&bytes[..]) else { return false };
+        v == 1 && code == 0 && log == i.log_id && ts == i.timestamp && prune == i.prune
     }
 }
 
 /// All checks of the statement on one header; returns the names of the checks that failed (in
 /// order), so that evidence shows every consequence while the violation is keyed on the first.
-fn failed_checks(original: &Header<Extensions>, rebuilt_unsigned: &Header<Extensions>, key: &SigningKey, decodes: usize) -> Vec<&'static str> {
+fn failed_checks(original: &Header<Extensions>, rebuilt_unsigned: &Header<Extensions>, key: &SigningKey, decodes: usize, intended: &Intended) -> Vec<&'static str> {
     let mut failed = Vec::new();
     let mut fail = |name: &'static str| {
         if !failed.contains(&name) {
@@ -83,6 +124,9 @@ fn failed_checks(original: &Header<Extensions>, rebuilt_unsigned: &Header<Extens
         fail("generated-header-invalid");
         return failed;
     }
+    if !content_matches(&original.extensions, intended) {
+        fail("extensions-content-differs-from-input");
+    }
     let bytes = original.to_bytes();
     let hash = original.hash();
     // Equal values encode identically: a clone, and an independently built equal value.
@@ -92,22 +136,24 @@ fn failed_checks(original: &Header<Extensions>, rebuilt_unsigned: &Header<Extens
     let mut orig_unsigned = original.clone();
     orig_unsigned.signature = None;
     if &orig_unsigned != rebuilt_unsigned {
-        fail("harness-rebuild-differs");
-        return failed;
-    }
-    if orig_unsigned.to_bytes() != rebuilt_unsigned.to_bytes() {
-        fail("equal-values-encode-differently");
-    }
-    let mut rebuilt = rebuilt_unsigned.clone();
-    rebuilt.sign(key);
-    if rebuilt.hash() != hash {
-        fail("equal-values-hash-differently");
-    }
-    // The original's signature is valid for the (equal) rebuilt value.
-    let mut transplanted = rebuilt_unsigned.clone();
-    transplanted.signature = original.signature;
-    if &transplanted == original && !transplanted.verify() {
-        fail("signature-invalid-on-equal-value");
+        // Two values built independently from the same content (constructor vs. wire tuple, or two
+        // decodes of the same tuple) are not equal.
+        fail("independently-built-values-differ");
+    } else {
+        if orig_unsigned.to_bytes() != rebuilt_unsigned.to_bytes() {
+            fail("equal-values-encode-differently");
+        }
+        let mut rebuilt = rebuilt_unsigned.clone();
+        rebuilt.sign(key);
+        if rebuilt.hash() != hash {
+            fail("equal-values-hash-differently");
+        }
+        // The original's signature is valid for the (equal) rebuilt value.
+        let mut transplanted = rebuilt_unsigned.clone();
+        transplanted.signature = original.signature;
+        if &transplanted == original && !transplanted.verify() {
+            fail("signature-invalid-on-equal-value");
+        }
     }
     let mut first_decode_bytes: Option<Vec<u8>> = None;
     for _ in 0..decodes {
@@ -120,6 +166,9 @@ fn failed_checks(original: &Header<Extensions>, rebuilt_unsigned: &Header<Extens
         };
         if &d != original {
             fail("decoded-not-equal");
+        }
+        if !content_matches(&d.extensions, intended) {
+            fail("decoded-extensions-content-differs");
         }
         if !d.verify() {
             fail("decoded-does-not-verify");
@@ -177,21 +226,41 @@ pub fn run(args: &Args) {
         let causal = i % 3 != 0;
         let n_prev = if causal { (i / 3 % 9) as usize } else { 0 };
         let kind = if causal { "causal" } else { "basic" };
-        let (ext_bytes, prev) = ext_tuple_bytes(&mut rng, causal, n_prev);
-        let ext_a: Extensions = match decode_cbor(&ext_bytes[..]) {
-            Ok(e) => e,
-            Err(e) => {
-                rep.inconclusive(format!("harness-encoded {kind} extensions tuple was not accepted: {e}"));
-                rep.case(None::<()>);
-                continue;
+        let (intended, prev) = gen_intended(&mut rng, causal, n_prev);
+        let ext_bytes = ext_tuple_bytes(&intended, &prev);
+        // Wire path (the only public way to a Causal value).
+        let from_wire = |what: &str, rep: &mut Report| -> Option<Extensions> {
+            match decode_cbor::<Extensions, _>(&ext_bytes[..]) {
+                Ok(e) => Some(e),
+                Err(e) => {
+                    rep.inconclusive(format!("harness-encoded {kind} extensions tuple was not accepted ({what}): {e}"));
+                    None
+                }
             }
         };
-        let ext_b: Extensions = decode_cbor(&ext_bytes[..]).expect("second decode of the same tuple");
+        let Some(ext_b) = from_wire("second value", &mut rep) else {
+            rep.case(None::<()>);
+            continue;
+        };
+        // First value: Basic through the public constructor under the mock wall clock
+        // (`Extensions::from_topic` stamps `Timestamp::now()`), Causal through the wire again.
+        let ext_a: Extensions = if causal {
+            match from_wire("first value", &mut rep) {
+                Some(e) => e,
+                None => {
+                    rep.case(None::<()>);
+                    continue;
+                }
+            }
+        } else {
+            MockClock::set_system_time(Duration::from_micros(intended.timestamp));
+            Extensions::from_topic(intended.topic.into()).set_prune_flag(intended.prune)
+        };
         let mut original = unsigned(&f, ext_a);
         original.sign(&f.key);
         let rebuilt_unsigned = unsigned(&f, ext_b);
         let decodes = if causal { 16 } else { 3 };
-        let failed = failed_checks(&original, &rebuilt_unsigned, &f.key, decodes);
+        let failed = failed_checks(&original, &rebuilt_unsigned, &f.key, decodes, &intended);
         rep.add_evaluations(decodes as u64);
         if causal && n_prev >= 2 {
             causal_ge2 += 1;
